@@ -9,6 +9,7 @@ no phase that can raise follows a phase that writes.  Recognised top-level state
     self._props["updates"][...] += 1                                         -> PCount
     add_info = {}                                                            -> PInit
     for transform in transforms: <retrieve; call>                            -> PTransforms
+    indices = np.asarray(indices, dtype=np.int32)                            -> PIndices
     if len(indices) == 0: return add_info                                    -> PEmptyReturn
     for name, arr in new_data.items(): if len(arr) != len(indices): raise    -> PLenCheck
     if new_data.keys() != self._fields.keys(): raise                         -> PKeyCheck
@@ -76,6 +77,12 @@ def classify(st):
             _fail(st, "the conversion step is not exactly {name: np.broadcast_to(np.asarray(new_data[name], dtype=arr.dtype), "
                       "(len(indices),) + arr.shape[1:]) for name, arr in self._fields.items()} (every field converted and shape-checked)")
         return "PConvert"
+    if isinstance(st, ast.Assign) and len(st.targets) == 1 and isinstance(st.targets[0], ast.Name) and st.targets[0].id == "indices":
+        # the indices are turned into an int32 array once, before anything is checked or written (a tuple would otherwise be read by
+        # numpy as ONE multi-dimensional index in the occupancy bookkeeping and in the field writes)
+        if ast.unparse(st.value) != "np.asarray(indices, dtype=np.int32)":
+            _fail(st, "the indices are rebound to something other than np.asarray(indices, dtype=np.int32)")
+        return "PIndices"
     if isinstance(st, ast.Assign) and len(st.targets) == 1 and isinstance(st.targets[0], ast.Name) and not has_raise(st):
         if st.targets[0].id in ("new_data", "indices", "add_info"):
             _fail(st, "rebinding %s outside the recognised steps" % st.targets[0].id)
@@ -117,7 +124,7 @@ def translate(repo=None):
     text = ("(** GENERATED by harness/py2v_store.py from the current pyribs source (%s: ArrayStore.add) on every run -- do not edit.\n"
             "    The phases of the method in source order; Refine/StoreAddRefine.v ties the order to Model/Store.v. *)\n"
             "From Coq Require Import List.\nImport ListNotations.\n\n"
-            "Inductive phase := PCount | PInit | PTransforms | PEmptyReturn | PLenCheck | PKeyCheck | PConvert | POccupancyRead | POccupancyWrite | PWrite | PReturn.\n\n"
+            "Inductive phase := PCount | PInit | PTransforms | PIndices | PEmptyReturn | PLenCheck | PKeyCheck | PConvert | POccupancyRead | POccupancyWrite | PWrite | PReturn.\n\n"
             "Definition gen_store_add_phases : list phase :=\n  [%s].\n" % (SRC, "; ".join(phases)))
     return text, hashlib.sha256("".join(ast.dump(s) for s in body).encode()).hexdigest()
 
